@@ -29,9 +29,27 @@ func init() {
 
 func runC14(c *Ctx) {
 	p := c.Progs["mod"]
-	c.Rule("C14.G", "banner gating by partial evaluation of the predicates", 12)
+	c.Rule("C14.G", "banner gating by partial evaluation of the predicates", 13)
 	c.Rule("C14.X", "1xx interim statuses do not latch the banner writer (= C03.X)", 2)
 	c.Rule("C14.T", "predicate truth tables and constants", 9)
+	// the URL the frame embeds is the one the client requested: the banner keeps the request's
+	// *url.URL and renders it when the backend's header arrives, so nothing in the agent's
+	// handler chain may rewrite that URL in place (= C02.W)
+	{
+		bad := ""
+		n := 0
+		for _, pk := range []string{"agent", "agent/banner", "agent/sessions"} {
+			for _, fn := range p.FuncsIn(pk) {
+				for _, m := range requestMutations(fn) {
+					n++
+					if strings.HasPrefix(m.Kind, "url-field:") || m.Kind == "field:URL" {
+						bad = m.Kind + " in " + FuncName(fn) + " at " + p.Pos(m.Instr.Pos())
+					}
+				}
+			}
+		}
+		c.Check("C14.G", "frame:requested-url-not-rewritten-in-place", p, 0, bad == "", fmt.Sprintf("no handler of the agent's chain stores into the request's URL (%d request mutation sites inspected)", n), "the request URL is rewritten in place ("+bad+"): the banner renders the same *url.URL later, so the frame embeds the rewritten URL instead of the requested one")
+	}
 	c.Rule("C14.S", "shim splice gated by the HTML content type; body preserved", 5)
 	const bpkg = ModPath + "/agent/banner"
 
